@@ -66,7 +66,7 @@ theorem kA_writeAt {n : NodeId} (hS : ¬ S n) (r : Reg) (a : Int) (buf : Bytes) 
   split
   · dsimp only
     split
-    · exact absS_cache _ hS _ _ _ h2
+    · exact absS_cache _ hS _ _ _ (absS_invOf _ n h2)
     · exact absS_invOf _ n h2
   · exact absS_invBy _ n hs
 
